@@ -74,6 +74,7 @@ Example C03_set_monitor_hypothesis_satisfiable :
   phase_names_unique x_names_case = true /\
   map (fun s => let '(_, _, fph, _) := s in fph) (statuses (set_obs_s x_names_case (SetCorr.model_run x_names_case))) = [Some 2%N].
 Proof. exact m03_hypothesis_satisfiable. Qed.
+Print Assumptions C03_set_monitor_hypothesis_satisfiable.
 
 (** The delegated part of the C03 check (m03d = C15Corr.m_gate && C15Corr.m_relay: a write to phase j only after every
     earlier delegated phase's phase object was seen Available for its generation in this pass; Available=True newly
